@@ -320,14 +320,14 @@ def run(ctx, scratch):
             tri = weighted(rng, E, directed=True, unit=rng.random() < 0.5)
             add_bip(rng, add, 'exh_bipartite', r, c, tri, True)
     # ---- structured random, no sink (the property's quantifier)
-    for _ in range(350 if quick else 2500):
+    for _ in range(700 if quick else 3000):
         directed = rng.random() < 0.5
         n, E, fam = gen.random_graph(rng, nmax, directed=directed)
         E = patch_sinks(rng, n, E, directed)
         tri = weighted(rng, E, directed)
         seeds = pick_seeds(rng, n)
         add_square(('rnd_dir_' if directed else 'rnd_und_') + fam, n, tri, seeds, True)
-    for _ in range(120 if quick else 900):
+    for _ in range(250 if quick else 1200):
         r, c, E = gen.random_biadj(rng, nmax // 2, nmax // 2)
         E = patch_biadj(rng, r, c, E)
         tri = weighted(rng, E, directed=True)
@@ -441,7 +441,7 @@ def run(ctx, scratch):
         # ---- harmonic limit on connected undirected graphs: Dirichlet with a large n_iter vs exact rational solve
         limit_cases = []
         dropped = 0
-        for _ in range(120 if quick else 700):
+        for _ in range(220 if quick else 900):
             n, E, fam = gen.random_graph(rng, nmax, directed=False, allow_loops=rng.random() < 0.3,
                                          family=rng.choice(['gnp_sparse', 'gnp_dense', 'tree', 'star', 'path', 'cycle',
                                                             'clique', 'two_cliques', 'grid', 'loops']))
